@@ -108,8 +108,12 @@ class _PumpStopEvent:
         return (self.flag,)
 
 
+_HANGS_SEEN = [0]
+
+
 def _alarm(signum, frame):
-    raise PumpHang("the poll loop did not go idle within 20 s of real time")
+    _HANGS_SEEN[0] += 1
+    raise PumpHang("the poll loop did not go idle within its real-time guard (20 s; 0.25 s once a hang has been seen in this process)")
 
 
 def _task_sleep(seconds):
@@ -465,7 +469,8 @@ class World:
         guard = _real_threading.current_thread() is _real_threading.main_thread()
         if guard:
             old_handler = signal.signal(signal.SIGALRM, _alarm)
-            signal.setitimer(signal.ITIMER_REAL, 20.0)
+            # a poll loop that hangs hangs everywhere: after the first hang in this process the guard is short
+            signal.setitimer(signal.ITIMER_REAL, 20.0 if not _HANGS_SEEN[0] else 0.25)
         try:
             tasks._poll_queue()
         except Exception as exc:  # the poll thread would have died (or never goes idle)
